@@ -26,6 +26,8 @@ CONSTRAINTS = [
     ('==', 'y', '1.0'), ('>=', 'z', 'x - 1.0'), ('<=', 'max(abs(x - z))', 'y + 3.0'), ('>=', 'min(x, z)', '-5.0'),
     ('<=', 'abs(y) + x', '3.0*b3 + 10.0'), ('==', 'sum(z)', 'y'), ('<=', 'r3*x + sum(abs(z))', '7.0'), ('<=', '2.0*z + D33*x', 'b3 + 9.0'),
     ('>=', 'y', '-1.0'), ('<=', 'z', '5.0'),
+    # vector affine part + max over a vector of a different length (every pair of components is constrained)
+    ('<=', 'x[:2] + max(z)', '1.0'), ('<=', 'z + max(x[:2])', 'b3'), ('>=', 'x[1:] + min(z)', '-4.0'),
 ]
 
 def gen_problems(tier):
